@@ -186,6 +186,8 @@ func (tb *TB) rebuild(t *Term, a []*Term) (res *Term) {
 		return tb.FloatToInt(a[0], true, 64)
 	case "fp_to_ubv":
 		return tb.FloatToInt(a[0], false, 64)
+	case "half_to_fp64":
+		return tb.HalfToFloat64(a[0])
 	case "bits_to_fp":
 		return tb.FloatFromBits(a[0])
 	case "fp.to_ieee_bv":
